@@ -278,6 +278,19 @@ def case_info(prop, cls, Rc, Rx, Dy, Dx, tag="", zero_M=False):
             c = mk_cond(m, rng, cls, Rc, Dy, Dx, tag=tag)
         p = mk_pdf(m, rng, Rx, Dx, diag=("pdiag" in tag))      # tag '/pdiag': the prior is a GaussianDiagPDF
         params = dict(cls=cls, Rc=Rc, Rx=Rx, Dy=Dy, Dx=Dx)
+        if "hist" in tag:
+            # history: the quantities were already computed for these two objects, then both were changed in place
+            # (p.update, c.update_Sigma); the second computation must see the new parameters
+            m.transform("cond_entropy", c.reg, p.reg); m.transform("mutual_information", c.reg, p.reg)
+            # '/histp': only p(x) is updated, '/hists': only the noise covariance, '/hist': both
+            if "hists" not in tag:
+                K = int(rng.integers(1, Rx + 1)); uidx = rng.permutation(Rx)[:K]
+                d = mk_pdf(m, rng, K, Dx, diag=("pdiag" in tag), scale=2.0)
+                m.update(p.reg, uidx, d.reg)
+                p.Sigma = p.Sigma.copy(); p.mu = p.mu.copy(); p.Sigma[uidx] = d.Sigma; p.mu[uidx] = d.mu
+            if "histp" not in tag:
+                S2 = gen.pd_batch(rng, Rc, Dy, diag=(cls in ("diag", "identitydiag")))
+                m.update_sigma(c.reg, S2); c.Sigma = S2
         ce = m.transform("cond_entropy", c.reg, p.reg)
         mi = m.transform("mutual_information", c.reg, p.reg)
         H = lambda S: 0.5 * np.sum(np.log(2 * np.pi * np.e * np.linalg.eigvalsh(S)))
